@@ -46,7 +46,7 @@ ASSUMPTIONS = [
     "a difference in IR text or virtual-register names that does not reach the object file is not a violation (counted)",
 ]
 TRUSTED = ["CPython", "Hypothesis", "setarch", "vf/gencc.py", "vf/genir.py", "vf/cgstage.py (stage observation by wrapping ppci functions)"]
-REGISTER = False
+REGISTER = True
 TECHNIQUE = "metamorphic: same unit compiled in six processes differing in hash seed, ASLR and prior compilations; object text and image bytes compared, first diverging compiler stage reported"
 LEVEL_TEXT = (
     "Exploration with a metamorphic oracle: each generated unit is compiled in six separately started processes that "
